@@ -112,6 +112,12 @@ Definition cache_model (c : bool * list cop) : list (cout * nat) :=
                 dict(op='get', sub=[], key='k'), dict(op='goc', sub=[], key='k', comp=[2], force=False),
                 dict(op='goc', sub=['s'], key='k', comp=[3], force=False), dict(op='goc', sub=['s'], key='k', comp=None, force=True),
                 dict(op='get', sub=['s'], key='k')]),
+            # values, mapping keys and cache keys that hold the words NaN, Infinity, -Infinity, null (inside strings)
+            dict(allow_nones=True, ops=[x for i, v in enumerate(('Avengers: Infinity War', {'NaN': ['-Infinity', 'a NaN b']}, 'NaN', ['Infinity', 'null', 'true']))
+                                        for x in (dict(op='goc', sub=[], key=f'mean of NaN column {i}', comp=[v], force=False),
+                                                  dict(op='get', sub=[], key=f'mean of NaN column {i}'),
+                                                  dict(op='goc', sub=['Infinity'], key='NaN', comp=[v], force=True),
+                                                  dict(op='get', sub=['Infinity'], key='NaN'))]),
             # falsy values that are not None, with None refused
             dict(allow_nones=False, ops=[x for v in (0, '', [], {}, False, 0.0) for x in (
                 dict(op='goc', sub=[], key=f'k{v!r}', comp=[v], force=False), dict(op='get', sub=[], key=f'k{v!r}'),
